@@ -1058,6 +1058,15 @@ def while_loop(ctx, node, rest, ret_wrap, ind):
         if ctx.typ(v) in (None, "List _"):
             raise Untranslatable(f"loop state variable {v} has no concrete type")
     params = [pp for pp in ctx.all_params if pp[0] not in state and pp[0] != "fuel"]
+    # typed locals defined before the loop and read (not rebound) inside it travel as fixed arguments, as in `for` loops
+    pnames = {p for p, _ in ctx.all_params}
+    used = []
+    for st in body + [ast.Expr(value=node.test)]:
+        for n in ast.walk(st):
+            if isinstance(n, ast.Name) and isinstance(n.ctx, ast.Load) and n.id not in used:
+                used.append(n.id)
+    frees = [(v, ctx.typ(v)) for v in used if v not in pnames and v not in state and ctx.typ(v) not in (None, "List _") and v in getattr(ctx, "defined", set())]
+    params = params + frees
     ctx.loop_counter += 1
     k = ctx.loop_counter
     aux_name = f"{ctx.fn_name}_while{k}"
